@@ -81,6 +81,10 @@ def rand_attrs(rng, mode, prefix_ok=True):
     return attrs
 
 
+class Unspecified(Exception):
+    pass
+
+
 class Boom(Exception):
     pass
 
@@ -114,6 +118,9 @@ def gen_ops(rng, depth_budget, attr_mode, size, budget=None):
             t = ' '.join(t.split())
             if t:
                 ops.append(('line', t))
+        elif r < 0.58:
+            # an element whose opening itself fails (an attribute the writer cannot serialise): nothing of it may remain
+            ops.append(('badopen', rand_name(rng), rng.choice(['push', 'ctx', 'tag']), rng.choice(['int-value', 'triple'])))
         elif r < 0.8:
             ops.append(('push', rand_name(rng), rand_attrs(rng, attr_mode), gen_ops(rng, depth_budget - 1, attr_mode, size, budget)))
         else:
@@ -145,6 +152,25 @@ def apply_ops(w, ops, ref_children, stats):
             w.write_line(op[1], do_escape=True)
             ref_children.append(('text', op[1]))
             stats['line'] += 1
+        elif kind == 'badopen':
+            _, name, how, what = op
+            bad = {'int-value': [('value', 42)], 'triple': [('name', 'x', 'extra')]}[what]
+            try:
+                if how == 'push':
+                    w.push_tag(name, bad)
+                    w.pop_tag()         # not reached when the opening fails
+                elif how == 'ctx':
+                    with w.tagcontext(name, bad):
+                        pass
+                else:
+                    w.write_tag(name, bad)
+            except Boom:
+                raise
+            except Exception:
+                stats['badopen-raised'] += 1
+            else:
+                # the writer accepted it (it serialised the odd value somehow): what the document then contains is not specified
+                raise Unspecified()
         elif kind == 'push':
             _, name, attrs, body = op
             kids = []
@@ -305,6 +331,8 @@ def run_case(case):
         w.pop_tag()
     except InvariantBroken as e:
         return {'fail': 'invariant', 'what': str(e), 'ops': ops}
+    except Unspecified:
+        return {'stats': {'badopen-accepted': 1}, 'inv': 0, 'bytes': 0, 'class': 'unspecified'}
     data = w.get_encoded_xml()
     text = w.get_xml()
     res = {'stats': dict(stats), 'inv': st['counter']['invariant'] - inv0, 'bytes': len(data)}
